@@ -867,6 +867,72 @@ func checkC17(c *Ctx) {
 				return
 			}
 			ns++
+			// the payload is exactly the declared number of bytes: end - start == Len (bytes read beyond the declared
+			// length - trailing bytes, a second frame in the same read - are not part of this message)
+			{
+				lo := lconst(0)
+				if sl.Low != nil {
+					lo = bc.term(sl.Low)
+				}
+				hiT := bc.lenOf(sl.X)
+				if sl.High != nil {
+					hiT = bc.term(sl.High)
+				}
+				exact := false
+				var lenV ssa.Value
+				eachInstr(read, func(_ *ssa.BasicBlock, _ int, y ssa.Instruction) {
+					if ld, ok := y.(*ssa.UnOp); ok && ld.Op == token.MUL {
+						if f, _ := fieldAddr(ld.X); f != nil && f.Name() == "Len" {
+							lenV = ld
+						}
+					}
+					if st, ok := y.(*ssa.Store); ok && lenV == nil {
+						if f, _ := fieldAddr(st.Addr); f != nil && f.Name() == "Len" {
+							lenV = st.Val
+						}
+					}
+				})
+				_ = lo
+				_ = hiT
+				// structurally: High is Len + k (k a constant, possibly 0) in any integer width, Low is the constant k
+				isLen := func(v ssa.Value) bool {
+					v = stripConv(v)
+					if v == lenV {
+						return true
+					}
+					if ld, ok := v.(*ssa.UnOp); ok && ld.Op == token.MUL {
+						f, _ := fieldAddr(ld.X)
+						return f != nil && f.Name() == "Len"
+					}
+					return false
+				}
+				lenPlus := func(v ssa.Value) (int64, bool) {
+					v = stripConv(v)
+					if isLen(v) {
+						return 0, true
+					}
+					if bo, ok := v.(*ssa.BinOp); ok && bo.Op == token.ADD {
+						if k, isC := constInt(bo.X); isC && isLen(bo.Y) {
+							return k, true
+						}
+						if k, isC := constInt(bo.Y); isC && isLen(bo.X) {
+							return k, true
+						}
+					}
+					return 0, false
+				}
+				if sl.High != nil {
+					if k, ok := lenPlus(sl.High); ok {
+						low := int64(0)
+						lowC := true
+						if sl.Low != nil {
+							low, lowC = constInt(sl.Low)
+						}
+						exact = lowC && low == k
+					}
+				}
+				c.Check(exact, "R4", "payload is exactly the declared length", sl.Pos(), "end - start == Len", "the payload handed on is not cut at the declared length (it runs to the end of what was read): a read that returns more than header+Len - trailing bytes, two frames coalesced - yields a message whose payload has foreign bytes appended, and a malformed frame is accepted")
+			}
 			okp, w := bc.proveSlice(sl)
 			if okp {
 				c.OK("R4", "payload slice within the buffer", sl.Pos(), w)
@@ -1018,6 +1084,8 @@ func checkC17(c *Ctx) {
 	checkChildDeparture(c, "R7")
 	c.Rule("R8", "every requested step resolves to a declared method of the instance (not to a promotion wrapper that re-enters the same interface call)")
 	checkStepsHaveActions(c, "R8")
+	c.Rule("R11", "the handler called for a frame is chosen from that frame's type alone (no handler variable carried across iterations of the read loop)")
+	checkHandlerChosenPerRequest(c, "R11")
 	c.Rule("R9", "the frame reader accepts every type byte (unknown requests reach the dispatcher and get the unknown reply)")
 	checkReaderTypeAgnostic(c, "R9")
 	c.Rule("R10", "draining the parent's listeners keeps the established connections (shared with C09.R11): the drain latch is not read by code that runs per accepted connection")
@@ -1321,4 +1389,62 @@ func checkReaderTypeAgnostic(c *Ctx, rule string) {
 		}
 	})
 	c.Check(bad == token.NoPos, rule, "the frame reader rejects no frame because of its type", bad, fmt.Sprintf("%d branches examined, no error return depends on the type byte", n), "the frame reader returns an error depending on the type byte: a well-formed frame of an undefined type (a newer child's request) never reaches the dispatcher, the child loop skips it without the unknown reply and the child waits for ever")
+}
+
+// checkHandlerChosenPerRequest (C17.R11): the handler called for a frame is chosen from that frame's type alone. A
+// handler variable that lives across iterations of the read loop ("state the default once") keeps the choice of the
+// previous request for a type the dispatch does not name: the previous step runs again and its reply is sent in place
+// of the unknown reply.
+func checkHandlerChosenPerRequest(c *Ctx, rule string) {
+	p := c.P
+	n := 0
+	for _, fn := range p.FuncsIn("cmd/samaritan/hotrestart") {
+		if p.isTestFn(fn) {
+			continue
+		}
+		heads := map[*ssa.BasicBlock]bool{}
+		for _, h := range loopHeaders(fn) {
+			heads[h] = true
+		}
+		if len(heads) == 0 {
+			continue
+		}
+		eachInstr(fn, func(_ *ssa.BasicBlock, _ int, in ssa.Instruction) {
+			call, ok := in.(*ssa.Call)
+			if !ok || call.Call.IsInvoke() || call.Call.StaticCallee() != nil {
+				return
+			}
+			if _, isB := call.Call.Value.(*ssa.Builtin); isB {
+				return
+			}
+			// a dispatch: the callee is chosen among several method values
+			ph, isPhi := call.Call.Value.(*ssa.Phi)
+			if !isPhi {
+				return
+			}
+			n++
+			carried := false
+			seen := map[*ssa.Phi]bool{}
+			var walk func(q *ssa.Phi)
+			walk = func(q *ssa.Phi) {
+				if seen[q] {
+					return
+				}
+				seen[q] = true
+				if heads[q.Block()] {
+					carried = true
+				}
+				for _, e := range q.Edges {
+					if q2, ok := e.(*ssa.Phi); ok {
+						walk(q2)
+					}
+				}
+			}
+			walk(ph)
+			c.Check(!carried, rule, fmt.Sprintf("%s dispatch#%d chooses the handler from this request alone", fnKey(fn), n), call.Pos(), "no value of the handler variable flows in from a previous iteration", "the handler variable is carried from one iteration of the read loop to the next: a request of a type the dispatch does not name is handed to the handler of the previous request - that step is performed again, and its reply is sent instead of the unknown reply")
+		})
+	}
+	if n == 0 {
+		c.OK(rule, "no dispatch through a handler variable", token.NoPos, "the handler is called directly (switch arms or a table)")
+	}
 }
